@@ -659,7 +659,7 @@ class Fn:
                 return self.expand_expr(init, depth - 1, use_block)
             return e
         out = None
-        for key in ("l", "r", "e", "c", "t", "f", "obj", "base", "idx", "args", "kids"):
+        for key in ("l", "r", "e", "c", "t", "f", "obj", "base", "idx", "args", "kids", "placement", "init", "fn"):
             if key in e and isinstance(e[key], (dict, list)):
                 x = self.expand_expr(e[key], depth, use_block)
                 if x is not e[key]:
